@@ -1,18 +1,22 @@
 #!/usr/bin/env python3
-"""seedtest.py <dir-with-patch.diff,meta.json,demo> [--tier quick|thorough] [--check ID]
-Applies a seeded property-breaking change to /repo, confirms it (suite passes,
-demo fails with it / passes without), runs the property's check, and ALWAYS
-reverts /repo. Prints one summary line."""
-import json, os, subprocess, sys, shutil
+"""seedtest.py <dir-with-patch.diff,meta.json,demo> [--tier quick|thorough] [--check ID] [--keep NAME]
+
+Evaluates a seeded property-breaking change WITHOUT touching /repo: a scratch git
+worktree of /repo's HEAD is created under /tmp, the change is applied there, and
+ - the demonstration must pass on the unchanged worktree and fail with the change,
+ - the pinned test suite must pass with the change,
+ - the property's check is run against the scratch worktree (VERIF_REPO / VERIF_OUT).
+The worktree and its output directory are removed afterwards. Prints one JSON summary."""
+import json, os, re, subprocess, sys, shutil, tempfile
 
 ENV = dict(os.environ, GOFLAGS="-mod=mod", GOPROXY="off", GOSUMDB="off", GOTOOLCHAIN="local")
 
-def sh(cmd, cwd="/repo", timeout=3600):
-    p = subprocess.run(cmd, shell=True, cwd=cwd, env=ENV, capture_output=True, text=True, timeout=timeout)
+def sh(cmd, cwd, timeout=7200, env=None):
+    p = subprocess.run(cmd, shell=True, cwd=cwd, env=env or ENV, capture_output=True, text=True, timeout=timeout)
     return p.returncode, p.stdout + p.stderr
 
 def main():
-    d = sys.argv[1].rstrip("/")
+    d = os.path.abspath(sys.argv[1].rstrip("/"))
     tier = "quick"
     if "--tier" in sys.argv:
         tier = sys.argv[sys.argv.index("--tier") + 1]
@@ -24,72 +28,79 @@ def main():
     copy_to = demo.get("copy_to") or demo.get("path_in_repo")
     run = demo.get("run")
     demo_src = None
-    for f in os.listdir(d):
+    for f in sorted(os.listdir(d)):
         if f.endswith("_test.go"):
             demo_src = d + "/" + f
-    rc, out = sh("git status --porcelain")
-    if out.strip():
-        print("REPO NOT CLEAN, abort:", out); sys.exit(2)
+    wt = tempfile.mkdtemp(prefix="seedwt_")
+    out = tempfile.mkdtemp(prefix="seedout_")
+    os.rmdir(wt)
     res = {"seed": d, "property": prop}
-    dst = "/repo/" + copy_to.lstrip("/").replace("/tmp/wt_%s/" % meta["property"], "") if copy_to else None
-    if dst and dst.startswith("/repo//"):
-        dst = dst.replace("/repo//", "/repo/")
-    run_cmd = None
-    if run:
-        import re
-        run_cmd = run.replace("/tmp/wt_%s" % meta["property"], "/repo")
-        run_cmd = re.sub(r"^\s*cd\s+\S+\s*&&\s*", "", run_cmd)
-        run_cmd = re.sub(r"^.*?(go test)", r"\1", run_cmd, count=1)
-        run_cmd = "cd /repo && " + run_cmd
+    rc, o = sh("git worktree add -q --detach %s HEAD" % wt, "/repo")
+    if rc != 0:
+        print(json.dumps({"error": o})); return
     try:
-        if dst and demo_src:
+        dst = None
+        if copy_to:
+            rel = re.sub(r"^/tmp/wt_C\d+/", "", copy_to).lstrip("/")
+            dst = os.path.join(wt, rel)
+        run_cmd = None
+        if run:
+            run_cmd = re.sub(r"^\s*cd\s+\S+\s*&&\s*", "", run)
+            run_cmd = re.sub(r"^.*?(go test)", r"\1", run_cmd, count=1)
+            run_cmd = re.sub(r"/tmp/wt_C\d+", wt, run_cmd)
+        if dst and demo_src and run_cmd:
+            os.makedirs(os.path.dirname(dst), exist_ok=True)
             shutil.copy(demo_src, dst)
-            rc, out = sh(run_cmd, cwd="/repo")
+            rc, o = sh(run_cmd, wt)
             res["demo_passes_clean"] = (rc == 0)
             if rc != 0:
-                res["demo_clean_out"] = out[-600:]
-        rc, out = sh("git apply --whitespace=nowarn " + d + "/patch.diff")
+                res["demo_clean_out"] = o[-600:]
+        rc, o = sh("git apply --whitespace=nowarn " + d + "/patch.diff", wt)
         if rc != 0:
-            res["apply"] = "FAILED: " + out[-300:]
-            print(json.dumps(res)); return
-        if dst and demo_src:
-            rc, out = sh(run_cmd, cwd="/repo")
+            res["apply"] = "FAILED: " + o[-300:]
+            print(json.dumps(res, indent=1)); return
+        if dst and demo_src and run_cmd:
+            rc, o = sh(run_cmd, wt)
             res["demo_fails_mutant"] = (rc != 0)
             os.remove(dst)
-        rc, out = sh("go build ./... && go test -vet=off -count=1 ./... 2>&1 | grep -v 'no test files' | grep -v '^ok' | head -20")
-        res["suite_passes_mutant"] = (out.strip() == "")
-        if out.strip():
-            res["suite_out"] = out[-500:]
-        rc, out = sh("./check.sh %s %s" % (prop, tier), cwd="/verif", timeout=7200)
+        rc, o = sh("go build ./... && go test -vet=off -count=1 ./... 2>&1 | grep -v 'no test files' | grep -v '^ok' | head -20", wt)
+        res["suite_passes_mutant"] = (o.strip() == "")
+        if o.strip():
+            res["suite_out"] = o[-500:]
+        env = dict(ENV, VERIF_REPO=wt, VERIF_OUT=out)
+        rc, o = sh("./check.sh %s %s" % (prop, tier), "/verif", env=env)
         res["check_exit"] = rc
-        vio = [l for l in out.splitlines() if l.startswith("VIOLATION")]
-        keys = sorted(set(l.strip() for l in out.splitlines() if l.strip().startswith("key=")))
+        vio = [l for l in o.splitlines() if l.startswith("VIOLATION")]
+        keys = sorted(set(l.strip() for l in o.splitlines() if l.strip().startswith("key=")))
         res["violations"] = len(vio)
         res["keys"] = keys[:8]
         res["detected"] = (rc == 1 and len(vio) > 0)
         if rc not in (0, 1):
-            res["check_out"] = out[-600:]
+            res["check_out"] = o[-600:]
     finally:
-        sh("git checkout -- . && git clean -fdq -- . ")
-        if dst and os.path.exists(dst):
-            os.remove(dst)
+        sh("git worktree remove --force " + wt, "/repo")
+        shutil.rmtree(wt, ignore_errors=True)
+        shutil.rmtree(out, ignore_errors=True)
     print(json.dumps(res, indent=1))
     if "--keep" in sys.argv:
         name = sys.argv[sys.argv.index("--keep") + 1]
-        out = "/verif/seeded/" + name
-        os.makedirs(out, exist_ok=True)
-        shutil.copy(d + "/patch.diff", out + "/patch.diff")
-        if demo_src:
-            shutil.copy(demo_src, out + "/demo_test.go")
+        kd = "/verif/seeded/" + name
+        os.makedirs(kd, exist_ok=True)
+        if os.path.abspath(d) != os.path.abspath(kd):
+            shutil.copy(d + "/patch.diff", kd + "/patch.diff")
+            if demo_src:
+                shutil.copy(demo_src, kd + "/demo_test.go")
+        head = subprocess.run("git -C /repo rev-parse --short HEAD", shell=True, capture_output=True, text=True).stdout.strip()
         meta["confirmed_by_framework_author"] = {
+            "against_repo_commit": head,
             "demo_passes_on_unchanged_tree": res.get("demo_passes_clean"),
             "demo_fails_with_change": res.get("demo_fails_mutant"),
             "existing_suite_passes_with_change": res.get("suite_passes_mutant"),
             "check_run": "./check.sh %s %s" % (prop, tier),
             "check_detects": res.get("detected"),
             "violation_keys": res.get("keys"),
-            "how": "seedtest.py: git -C /repo apply patch.diff; go test ./...; demo; check; git -C /repo checkout -- .",
+            "how": "seedtest.py: scratch worktree of /repo HEAD; git apply patch.diff; go test ./...; demonstration with and without the change; the check with VERIF_REPO=<worktree>; worktree removed. To run a check against the change by hand: git -C /repo apply seeded/<id>/patch.diff; ./check.sh <ID> quick; git -C /repo checkout -- .",
         }
-        json.dump(meta, open(out + "/meta.json", "w"), indent=1)
+        json.dump(meta, open(kd + "/meta.json", "w"), indent=1)
 
 main()
